@@ -36,10 +36,11 @@ SPEC = dict(
     rule="1-3 in-memory shards (distinct repo ranks incl. 0 and 65535) x 1-6 documents (4 extensions/languages, words with "
          "word/partial boundaries, symbols covering/overlapping words with 12 ctags kinds, filenames containing the pattern) x 9 query "
          "shapes (substring, case, or, and, boosted atoms with weights 2/0.5/1.5/3/1+1e-10, file:, sym:) x line/chunk mode x default/BM25; "
+         "Search-API oracle (package search): 1-4 shards through shardedSearcher.Search/StreamSearch with the default GOMAXPROCS, repeated 4x + DebugScore. "
          "every search is run 5x without and 1x with DebugScore; 3 tfScore(k,b,L,f) samples per case (exact L, relative 2^-40).  Correspondence (default scorer): candidate features re-derived "
          "independently from the corpus, model computes all scores and both orders; order compared exactly, match scores within "
          "2^-30, file scores within 2^-12. non-trivial = >= 2 files and a file with >= 2 matches.",
-    trusted_base=["correspondence harness harness/overlay/index/zz_verif_c29_test.go (corpus generator, feature re-derivation, Go oracle)",
+    trusted_base=["correspondence harness harness/overlay/index/zz_verif_c29_test.go (corpus generator, feature re-derivation, Go oracle), oracle harness harness/overlay/search/zz_verif_c29_test.go",
                   "translator/scoreconsts (go/ast + go/constant) regenerating coq/Generated/ScoreConsts.v from the Go source on every run",
                   "scoreSymbolKind is called as is to obtain the kind score of a symbol (its table is not modelled; only its maximum factor is generated)",
                   "atom count per file is read from the debug string of the DebugScore run (visitMatchAtoms is not modelled)",
@@ -49,13 +50,65 @@ SPEC = dict(
 )
 
 
+def check(ctx):
+    """standard_check + a second, oracle-only harness at the Search API (package search)"""
+    pid = ctx.pid
+    proofs = vf.coq_props(ctx, pid)
+    broken, failures = [], []
+    aok, aout = vf.audit()
+    if not aok:
+        proofs["ok"] = False
+        proofs["discharged"] = 0
+        broken.append("audit: " + aout[-800:])
+    if ctx.tier == "thorough" and proofs["ok"]:
+        cok, cout = vf.coqchk(pid)
+        proofs["coqchk"] = cout[-1500:]
+        if not cok:
+            proofs["ok"] = False
+            broken.append("coqchk rejects Props/%s.vo: %s" % (pid, cout[-800:]))
+    if not proofs["ok"]:
+        broken.append("proof obligations of Props/%s.v do not check: %s" % (pid, (proofs.get("broken_files") or proofs.get("nonstd_axioms") or proofs["log"][-800:])))
+    h, r = SPEC["harness"], SPEC["runner"]
+    to = 900 if ctx.tier == "quick" else 3000
+    h1 = vf.go_harness(ctx, h["pkg_dir"], h["run"], h["files"], ctx.n(h["n_quick"], h["n_thorough"]), env=h.get("env"), timeout=to, out_name="out-index.jsonl")
+    if h1["rc"] != 0:
+        broken.append("harness %s failed (rc=%d): %s" % (h["run"], h1["rc"], h1["log"][-1500:]))
+    h2 = vf.go_harness(ctx, "search", "TestVerifC29Search$", ["search/zz_verif_c29_test.go"], ctx.n(60, 1200), timeout=to, out_name="out-search.jsonl")
+    if h2["rc"] != 0:
+        broken.append("harness TestVerifC29Search failed (rc=%d): %s" % (h2["rc"], h2["log"][-1500:]))
+    recs = h1["records"] + h2["records"]
+    cases = [x for x in recs if x.get("kind") == "case"]
+    for x in recs:
+        if x.get("kind") == "oracle_fail":
+            failures.append(dict(key=x.get("key", "?"), what=x.get("what", ""), replay=x.get("replay")))
+    ev = dict(ok=True, bad=[], evaluated=0, log="")
+    if cases:
+        ev = vf.coq_eval_cases(ctx, pid, r["imports"], r["case_type"], r["mismatch_fn"], [c["coq"] for c in cases], shard=r.get("shard", 120))
+        if not ev["ok"]:
+            broken.append("model evaluation failed: " + ev["log"][-1500:])
+        for i in ev["bad"][:20]:
+            broken.append("correspondence %s: model and implementation disagree on case %s" % (r["mismatch_fn"], str(cases[i].get("sample"))[:1500]))
+    elif h1["rc"] == 0:
+        broken.append("harness produced no cases")
+    cov = dict(evaluations=len(cases), distinct_nontrivial=vf.distinct_nontrivial(cases), rule=SPEC["rule"],
+               samples=[c.get("sample") for c in cases[:3]], traces_validated_against_impl=ev["evaluated"],
+               correspondence_mismatches=len(ev["bad"]), oracle_failures=len(failures),
+               input_distribution=vf.histogram(cases, "class"), trusted_base=SPEC["trusted_base"])
+    if proofs.get("coqchk"):
+        cov["coqchk"] = proofs["coqchk"]
+    for x in recs:
+        if x.get("kind") == "info":
+            cov.setdefault("info", []).append({k: v for k, v in x.items() if k != "kind"})
+    return vf.finish(ctx, "proof", proofs, cov, failures=failures, broken=broken, assumptions=SPEC["assumptions"])
+
+
 def run(ctx):
     ok, out = regen(ctx)
     try:
         if not ok:
             return vf.finish(ctx, "proof", dict(obligations=0, discharged=0), dict(evaluations=0, distinct_nontrivial=0),
                              broken=["translator/scoreconsts failed on the current source: " + out])
-        return vf.standard_check(ctx, SPEC)
+        return check(ctx)
     finally:
         if os.path.realpath(vf.REPO) != "/repo":
             # leave the generated file as /repo defines it
